@@ -114,7 +114,7 @@ func main() {
 							if id, ok := x.X.(*ast.Ident); ok && osFuncs[x.Sel.Name] {
 								if pn, ok := p.TypesInfo.Uses[id].(*types.PkgName); ok && pn.Imported().Path() == "os" {
 									rep.OsCallSites = append(rep.OsCallSites, p.Fset.Position(x.Pos()).String())
-									c.Replace(&ast.SelectorExpr{X: ast.NewIdent("verifhook"), Sel: ast.NewIdent(x.Sel.Name)})
+									id.Name = "verifhook" // in place: keeps the node's position information intact for the printer
 									changed = true
 									return false
 								}
